@@ -170,6 +170,8 @@ def account(chk, tag, flavour, res, prefix, state):
             state["errors"].append("ASan report outside a kernel call: %s" % asan_reports[0][0])
         for i, m in enumerate(marks):
             vkey = "C07|asan|%s" % m["fn"]
+            if m.get("tag", "-") != "-":
+                vkey += "|" + m["tag"]
             if vkey in state["seen"]:
                 continue
             state["seen"].add(vkey)
